@@ -395,28 +395,12 @@ def dispatch (st : DState) (fs : List String) : DState × String :=
     | some p, some e, some n => let (a, o) := AR.addChildNamed st.ar p e n; ({ st with ar := a }, encOut o)
     | _, _, _ => bad
   | ["ar.add_copy", src, p, e] =>
-    -- `add_child` of a copy of node `src` of the tree itself: a fresh child of `p` with the payload (name, comment) of `src`
     match src.toNat?, p.toNat?, decOptInt e with
-    | some src, some p, some e =>
-      if AR.isLive st.ar src then
-        let nm := (AR.nd st.ar src).name
-        let cm := (AR.nd st.ar src).comment
-        match AR.addChildNamed st.ar p e nm with
-        | (a, .ok (some id)) => ({ st with ar := a.setIfInBounds id { AR.nd a id with comment := cm } }, s!"ok {id}")
-        | (a, o) => ({ st with ar := a }, encOut o)
-      else (st, "err NodeNotFound")
+    | some src, some p, some e => let (a, o) := AR.addCopy st.ar src p e; ({ st with ar := a }, encOut o)
     | _, _, _ => bad
   | ["ar.setlen", x, l] =>
-    -- a branch length overwritten in place through the public setters, both records (what `collapse` does for one node)
     match x.toNat?, l.toInt? with
-    | some x, some l =>
-      if AR.isLive st.ar x then
-        match (AR.nd st.ar x).parent with
-        | some p =>
-          let a1 := st.ar.setIfInBounds x { AR.nd st.ar x with pedge := some l }
-          ({ st with ar := a1.setIfInBounds p (AR.setCedge (AR.nd a1 p) x (some l)) }, "ok")
-        | none => (st, "err root")
-      else (st, "err NodeNotFound")
+    | some x, some l => let (a, o) := AR.setLenOp st.ar x l; ({ st with ar := a }, encOut o)
     | _, _ => bad
   | ["ar.setname", x, n] => match x.toNat?, decOptStr n with
     | some x, some n =>
